@@ -97,6 +97,7 @@ def quantile_score(y_tau, y_test, taus):
     """
     taus = np.ravel(taus)
     m = taus.size
+    y_tau, y_test = np.asarray(y_tau), np.asarray(y_test)
 
     if y_tau.ndim > 1 and np.prod(y_tau.shape[1:]) != m:
         raise ValueError("Shape of y_tau is incompatible with taus.")
@@ -105,7 +106,7 @@ def quantile_score(y_tau, y_test, taus):
 
     try:
         y_test = y_test.reshape(n, 1)
-    except:
+    except ValueError:
         raise ValueError(
             "Shape of y_test is incompatible with y_tau and taus.")
 
